@@ -252,7 +252,12 @@ def eval_case_inner(ctx, exe, case, status_of, deep=True):
             ops.append(f"run M2 {hx(chr(10).join(pert) + chr(10) + 'END' + chr(10))}")
             idx["mod2"] = len(ops)
             ops.append(f"run M2 {hx(chr(10).join(plain) + chr(10) + 'END' + chr(10))}")
-            first_only += ["M1", "M2"]
+            fresh("M3", ops)
+            ops.append(f"run M3 {hx(d1)}")
+            ops.append(f"run M3 {hx(chr(10).join(plain) + chr(10) + 'END' + chr(10))}")
+            idx["mod3"] = len(ops)
+            ops.append(f"run M3 {hx(chr(10).join(back) + chr(10) + 'END' + chr(10))}")
+            first_only += ["M1", "M2", "M3"]
     pos = {}
     for n_fu, (name, text) in enumerate(fu):
         for t in insts + (first_only if n_fu == 0 else []):
@@ -315,7 +320,7 @@ def eval_case_inner(ctx, exe, case, status_of, deep=True):
     for (name, t), p in pos.items():
         r = parse_run(out[p])
         T[(name, t)] = (r, parse_sel(out[p + 1]) if r[0] == 0 else None)
-    for key, t in (("mod", "M"), ("mod1", "M1"), ("mod2", "M2")):
+    for key, t in (("mod", "M"), ("mod1", "M1"), ("mod2", "M2"), ("mod3", "M3")):
         if key in idx and parse_run(out[idx[key]])[0] != 0:
             res["problems"].append(("modify", f"SOLUTION_MODIFY restoring totals/H/O/cb fails on {t}: {parse_run(out[idx[key]])[1][:300]}"))
             T.pop((name0, t), None)
@@ -337,7 +342,7 @@ def eval_case_inner(ctx, exe, case, status_of, deep=True):
         if ra[0] != 0:
             res["notes"].append(f"follow-up {name} fails on the original state (not judged)")
             continue
-        tab = {t: T[(name, t)] for t in ("B", "B17", "D", "E", "M", "M1", "M2") if (name, t) in T}
+        tab = {t: T[(name, t)] for t in ("B", "B17", "D", "E", "M", "M1", "M2", "M3") if (name, t) in T}
         d_fails = "D" in tab and tab["D"][0][0] != 0
         for t, (rt, _) in tab.items():
             res["followups"] += 1
@@ -375,7 +380,8 @@ def eval_case_inner(ctx, exe, case, status_of, deep=True):
             if d:
                 res["problems"].append(("sercopy", f"follow-up {name}: Serializer copy vs object copy: {d}"))
         for t, how in (("M", "of its own totals (valence-state names)/H/O/cb"), ("M1", "of its element-summed totals (plain element names)/H/O/cb"),
-                       ("M2", "of the element-summed totals/H/O/cb onto a solution of another composition and valence distribution")):
+                       ("M2", "of the element-summed totals/H/O/cb onto a solution of another composition and valence distribution"),
+                       ("M3", "of the element-summed totals and then of the valence-state totals of the dump")):
             if t in okay and "B" in okay:
                 d = cells_differ(okay["B"], okay[t])
                 if d:
@@ -600,6 +606,16 @@ def run(ctx):
     static = (info["defects"] + [(d[0], d[1], "Serialize/Deserialize", d[2]) for d in info["ser_defects"]]) if info else []
     ctx.cov["table_defects"] = [list(d) for d in static]
     status_of = (lambda tab, path: "unmodelled")
+    if not ok:
+        ctx.lake_build(["pmodel"])          # the model driver of the last good tables still serves the in-process correspondences
+    if ctx.pmodel_path().exists():
+        nm, multi, bad = merge_correspondence(ctx, exe, ctx.n(600, 20000))
+        evals += nm
+        ctx.cov["merge_redox_queries"] = {"total": nm, "with_several_valence_states_of_one_element": multi}
+        if bad:
+            q, a, b = bad[0]
+            ctx.violation(f"cxxNameDouble::merge_redox of the built library disagrees with the model: {q} → real {a}, model {b}",
+                          {"queries": [list(map(str, x)) for x in bad[:10]]}, found_input=True)
     if tables and ctx.pmodel_path().exists() and ok:
         fl = ctx.pmodel("raw", "failing\n")[0].split()[1:]
         lean_fail = {x.split(":")[0]: set(x.split(":")[1].split(",")) for x in fl}
@@ -615,13 +631,6 @@ def run(ctx):
         if bad:
             ctx.violation(f"CParser::find_option / vopts of the built library disagree with the model: {bad[:3]}",
                           {"queries": [list(map(str, b)) for b in bad[:10]]}, found_input=True)
-        nm, multi, bad = merge_correspondence(ctx, exe, ctx.n(600, 20000))
-        evals += nm
-        ctx.cov["merge_redox_queries"] = {"total": nm, "with_several_valence_states_of_one_element": multi}
-        if bad:
-            q, a, b = bad[0]
-            ctx.violation(f"cxxNameDouble::merge_redox of the built library disagrees with the model: {q} → real {a}, model {b}",
-                          {"queries": [list(map(str, x)) for x in bad[:10]]}, found_input=True)
     t_start = time.time()
     # ---- corpus: minimised past failures (repaired defects) are replayed first and must pass completely
     corpus = sorted(CORPUS.glob("*.json")) if CORPUS.exists() else []
